@@ -188,6 +188,9 @@ def run_emfile(binary, wd, idx):
     lines = read(ops); spec = spec_lines(wd, ops)
     return [(idx, l, v) for l, v in zip(lines, spec)]
 
+OUT_OF_FD = 'EN'                 # EMFILE ENFILE (isOutOfFdErr)
+TRANSIENT = 'aipdbmht'           # ECONNABORTED EINTR EPROTO ENETDOWN ENOBUFS ENOMEM EHOSTUNREACH ETIMEDOUT (go/inpkg/srvh.go stretchErrno)
+
 def stretch_lengths(tier):
     """lengths (consecutive failed accepts) of the exhaustion stretches: short ones and the ones around the end of
     the back-off goroutine's delay table, whose length is read from the code (T-gen fact server_retry)"""
@@ -196,42 +199,69 @@ def stretch_lengths(tier):
     if tier == 'thorough': ks |= {4, 5, n + 3, n + 5}
     return sorted(k for k in ks if k >= 1)
 
-def _stretch_proc(binary, wd, ks, tag):
+def stretch_scripts(tier, seed):
+    """scripts of accept results (alphabet: go/inpkg/srvh.go stretchLn) for the exhaustion stretches: E^k for the lengths
+    above, and fault SEQUENCES - descriptor exhaustion followed by / mixed with the other errors accept(2) may report
+    at any time, as the first error the poller sees, as the goroutine's first retry, deep in the delay table, with a
+    successful accept in between - plus seeded random ones.  Every script contains an out-of-descriptor error (the
+    clause is about descriptor exhaustion) and its goroutine delays stay below those of the longest E^k."""
+    import random
+    n = len(common.facts().get('server_retry', {}).get('table') or []) or 7
+    out = ['E' * k for k in stretch_lengths(tier)]
+    out += ['N', 'Ea', 'Ei', 'Ep', 'EEa', 'EEEi', 'ENpd', 'EaE', 'EiiE', 'aE', 'pEa', 'Nb', 'EKa', 'EaKE', 'E' * (n - 1) + 'b', 'E' * (n - 2) + 'ai']
+    rnd = random.Random(seed * 7919 + 13)
+    for i in range(4 if tier != 'thorough' else 24):
+        ln = rnd.randint(2, n if tier != 'thorough' else n + 2)
+        sc = ''.join(rnd.choice(OUT_OF_FD[0] * 3 + OUT_OF_FD[1] + TRANSIENT + ('K' if j else '')) for j in range(ln))
+        if not set(sc) & set(OUT_OF_FD):
+            sc = 'E' + sc[1:]
+        out.append(sc)
+    seen = set()
+    return [x for x in out if not (x in seen or seen.add(x))]
+
+def _stretch_proc(binary, wd, scripts, tag):
     ops = os.path.join(wd, 'stretch_%s' % tag)
     if os.path.exists(ops): os.remove(ops)
-    p = subprocess.run([binary, '-mode', 'stretch', '-ks', ','.join(map(str, ks)), '-facts', os.path.join(common.WORK, 'facts.json'),
+    p = subprocess.run([binary, '-mode', 'stretch', '-scripts', ','.join(scripts), '-facts', os.path.join(common.WORK, 'facts.json'),
                         '-ops-out', ops], stdout=subprocess.PIPE, stderr=subprocess.STDOUT, text=True, timeout=600)
     lines = read(ops) if os.path.exists(ops) else []
-    done = {int(kvs(l)['k']): l for l in lines if l.startswith('stretch ')}
-    begun = [int(kvs(l)['k']) for l in lines if l.startswith('begin ')]
+    done = {kvs(l)['script']: l for l in lines if l.startswith('stretch ')}
+    begun = [kvs(l)['script'] for l in lines if l.startswith('begin ')]
     return p.returncode, p.stdout, done, begun
 
-def run_stretch(binary, wd, ks):
-    """descriptor-exhaustion stretches of the given lengths, all in one child process (concurrently, one event loop
-    each).  A panic in a library goroutine kills the child: every stretch that was in progress is then re-run in a
-    child of its own, shortest first, to find out which length kills it.  Returns [(k, line, verdict)]."""
+def script_key(sc):
+    return (len(sc), sc)
+
+def run_stretch(binary, wd, scripts):
+    """descriptor-exhaustion stretches with the given scripts of accept results, all in one child process
+    (concurrently, one event loop each).  A panic in a library goroutine kills the child: every stretch that was in
+    progress is then re-run in a child of its own, shortest first, to find out which script kills it.
+    Returns [(script, line, verdict)], shortest script first."""
     os.makedirs(wd, exist_ok=True)
-    rc, out, done, begun = _stretch_proc(binary, wd, ks, 'all')
+    scripts = sorted(set(scripts), key=script_key)
+    rc, out, done, begun = _stretch_proc(binary, wd, scripts, 'all')
     if rc != 0:
-        for k in sorted(set(ks) - set(done)):
-            rc1, out1, done1, _ = _stretch_proc(binary, wd, [k], 'k%d' % k)
-            if k in done1:
-                done[k] = done1[k]
+        for n, sc in enumerate(sorted(set(scripts) - set(done), key=script_key)):
+            rc1, out1, done1, _ = _stretch_proc(binary, wd, [sc], 'one%d' % n)
+            if sc in done1:
+                done[sc] = done1[sc]
             else:
                 why = next((l for l in out1.split('\n') if l.startswith(('panic:', 'fatal error:'))), 'exit status %d' % rc1)
-                done[k] = 'stretch k=%d crashed=1 queued=1 served=0 fresh=0 died=%s' % (k, why.replace(' ', '_').replace('=', ':')[:160])
+                done[sc] = 'stretch k=%d script=%s crashed=1 queued=1 served=0 fresh=0 died=%s' % (len(sc) - sc.count('K'), sc, why.replace(' ', '_').replace('=', ':')[:160])
     def judge(done):
-        lines = [done[k] for k in sorted(done)]
+        keys = sorted(done, key=script_key)
+        lines = [done[k] for k in keys]
         ops = os.path.join(wd, 'stretch_lines')
         open(ops, 'w').write(''.join(l + '\n' for l in lines))
-        return [(int(kvs(l)['k']), l, v) for l, v in zip(lines, spec_lines(wd, ops))]
+        return [(sc, l, v) for sc, l, v in zip(keys, lines, spec_lines(wd, ops))]
     res = judge(done)
-    # a real-time observation that fails without a crash (a client not served within its wait) is re-run on its own
-    # before it is reported: the machine may be heavily loaded
-    again = [k for k, l, v in res if v != 'OK' and kvs(l).get('crashed') == '0']
-    for k in again:
-        rc1, out1, done1, _ = _stretch_proc(binary, wd, [k], 'again%d' % k)
-        if k in done1: done[k] = done1[k]
+    # a real-time observation that fails without a crash (a client not served within its wait) is re-run before it
+    # is reported: the machine may be heavily loaded.  (All of them together, in one more child.)
+    again = [sc for sc, l, v in res if v != 'OK' and kvs(l).get('crashed') == '0']
+    if again:
+        rc1, out1, done1, _ = _stretch_proc(binary, wd, again, 'again')
+        for sc in again:
+            if sc in done1: done[sc] = done1[sc]
     return judge(done) if again else res
 
 def kvs(line):
